@@ -50,7 +50,11 @@ META = {
         "say what the model means by those words"],
     "partial": ["PF Monte-Carlo convergence rate: no theorem (probabilistic limit); decided statistically by the pf-stat "
                 "stream (6.5-sigma band, N = 1e3..1e6, verdict only when the effective sample size N/E[w~^2] >= 200). The "
-                "deterministic skeleton (weights, resampling intervals and their Lebesgue measure, moments, PSD) is proved.",
+                "deterministic skeleton (weights, resampling intervals and their Lebesgue measure, moments, PSD) is proved, "
+                "as are the exact finite-N statements around the limit: the weights on a linear-Gaussian observation are "
+                "the self-normalised Kalman-posterior/proposal density ratios (pf_weights_target_kalman) and multinomial "
+                "resampling is unbiased with variance <= E_w[x^2]/N (pf_resample_mean_var). What is not proved is the law "
+                "of large numbers for the self-normalised estimator over a continuous proposal.",
                 "floating-point rounding is not modelled: equality with the Kalman posterior is a theorem over the reals "
                 "plus measured agreement within a conditioning-aware tolerance"],
 }
@@ -1298,6 +1302,8 @@ def run_pf_corr(ctx: Ctx, c, lines, metas):
                 out[3] = torch.nextafter(cs[i].to(out.dtype), zero)
             if float(cs[-1]) < float(torch.nextafter(one, zero)):
                 out[4] = torch.nextafter(cs[-1].to(out.dtype), one)
+            if N >= 7:
+                out[5] = cs[N // 3].to(out.dtype)          # an EXACT tie: either neighbour is admissible, nothing else
             ctx.count("pf-corr.crafted-draws")
 
         gm = st.get("grad", "plain")
@@ -1355,6 +1361,13 @@ def run_pf_corr(ctx: Ctx, c, lines, metas):
                                               f"{[tuple(r.shape) for r in rr.draws]}")
             break
         r = draws[0]
+        nonfin = [kx for kx in ("xp", "q", "xs", "xr") if not bool(torch.isfinite(rec[kx]).all())]
+        if "lik_args" in rec and not bool(torch.isfinite(rec["lik_args"][1]).all()):
+            nonfin.append("ye")
+        if nonfin:
+            # for finite valid inputs every intermediate of the documented particle model is finite
+            ctx.fail(stepcase, f"non-finite: PF call {j} produced non-finite {', '.join(nonfin)} (N={N}, {c['dtype']}, args={mode})")
+            break
         if int(model.systime) != clock_before + 1:
             ctx.disagree("pf-corr", stepcase, f"system clock after the call is {int(model.systime)}, model says {clock_before + 1}")
         # documented particle model: prior N(x, n P)
@@ -1405,14 +1418,14 @@ def run_pf_corr(ctx: Ctx, c, lines, metas):
         fref, gref = torch.from_numpy(nfam.f(xpn, un)), torch.from_numpy(nfam.g(xpn, un))
         ftol = CTOL * eps * torch.from_numpy(nfam.fpre(xpn, un)) + 1e-300
         gtol = CTOL * eps * gpre + 1e-300
-        if bool(((rec["xs"].double() - fref).abs() > ftol).any()) or bool(((lye - gref).abs() > gtol).any()):
+        if not (bool(((rec["xs"].double() - fref).abs() <= ftol).all()) and bool(((lye - gref).abs() <= gtol).all())):
             ctx.fail(stepcase, f"pf-propagate: the particles are not propagated / observed through the system at its clock "
                                f"(t={t_eff}): max |xs - f(xp,u,t)| = {float((rec['xs'].double() - fref).abs().max()):.3e}, "
                                f"max |ye - g(xp,u,t)| = {float((lye - gref).abs().max()):.3e} (N={N})")
         wref = torch.softmax(-maha / 2, dim=-1)
         dl0 = float(torch.linalg.cond(lR)) * (1.0 + maha / 2) + dlogit
         tolw0 = wref * (CTOL * eps * (dl0 + float(dl0[int(wref.argmax())]))) + 16 * eps * float(wref.max())
-        if bool(((rec["q"].double() - wref).abs() > tolw0).any()):
+        if not bool(((rec["q"].double() - wref).abs() <= tolw0).all()):       # NaN-safe: a NaN weight is a failure
             i0 = int(((rec["q"].double() - wref).abs() / tolw0).argmax())
             ctx.fail(stepcase, f"pf-weights: importance weight {i0} is {float(rec['q'][i0]):.6e}, the Gaussian likelihood of y "
                                f"gives {float(wref[i0]):.6e} (N={N}, args={mode})")
@@ -1420,8 +1433,8 @@ def run_pf_corr(ctx: Ctx, c, lines, metas):
         mx0 = xr.double().mean(dim=0)
         ex0 = xr.double() - mx0
         P0ref = torch.tensor(Ql, dtype=torch.float64) + (ex0.unsqueeze(-1) * ex0.unsqueeze(-2)).mean(dim=0)
-        if float((x2.double() - mx0).abs().max()) > CTOL * eps * sx0 or \
-                float((P2.double() - P0ref).abs().max()) > CTOL * eps * (scaleP + sx0 ** 2):
+        if not (float((x2.double() - mx0).abs().max()) <= CTOL * eps * sx0 and
+                float((P2.double() - P0ref).abs().max()) <= CTOL * eps * (scaleP + sx0 ** 2)):
             ctx.fail(stepcase, f"pf-moments: returned (x, P) is not (mean, Q + covariance) of the resampled particles: "
                                f"|dx|={float((x2.double() - mx0).abs().max()):.3e} |dP|={float((P2.double() - P0ref).abs().max()):.3e} "
                                f"(N={N})")
@@ -1459,7 +1472,7 @@ def compare_pf(ctx: Ctx, lines, metas, verbose=False, reps=None):
         tolw = wt * delta + 16 * eps * float(wt.max())
         dwv = (me["q"].double() - wt).abs()
         ctx.hist["pf-corr.weights.maxratio"] = max(ctx.hist.get("pf-corr.weights.maxratio", 0.0), float((dwv / tolw).max()))
-        if bool((dwv > tolw).any()):
+        if not bool((dwv <= tolw).all()):
             i = int((dwv / tolw).argmax())
             ctx.disagree("pf-corr", case, f"importance weight {i} differs from the model: {float(me['q'][i]):.6e} vs "
                                           f"{float(wt[i]):.6e} (tol {float(tolw[i]):.3e})")
@@ -1569,7 +1582,7 @@ def run_pf_stat(ctx: Ctx, c, verbose=False):
             floor = 64 * eps * math.log2(N) * (abs(ref[i]) + float(x2.double().abs().max()) + fpre0)
             z = abs(float(x2[i]) - ref[i]) / (sigma + 1e-300)
             worst = max(worst, (abs(float(x2[i]) - ref[i]) - floor) / (sigma + 1e-300))
-            if abs(float(x2[i]) - ref[i]) > 6.5 * sigma + floor:
+            if not (abs(float(x2[i]) - ref[i]) <= 6.5 * sigma + floor):
                 ctx.fail(stepcase, f"pf-mean: component {i}: estimate {float(x2[i]):.6g} vs posterior mean {ref[i]:.6g} of the "
                                    f"documented particle model: {z:.1f} sigma (sigma={sigma:.3e}, N={N}, N/ESS={cfac:.1f}, "
                                    f"n,p={n},{p}, {c['dtype']})")
@@ -1587,7 +1600,7 @@ def run_pf_stat(ctx: Ctx, c, verbose=False):
             for i in range(n):
                 wv = float(want[i, i])
                 sd = wv * math.sqrt((2.0 + 3.0 * cfac) / N) * 3.0
-                if abs(float(P2[i, i]) - wv) > 6.5 * sd + 256 * eps * wv * math.sqrt(N):
+                if not (abs(float(P2[i, i]) - wv) <= 6.5 * sd + 256 * eps * wv * math.sqrt(N)):
                     ctx.fail(stepcase, f"pf-cov: diagonal {i}: {float(P2[i, i]):.6g} vs Q + posterior covariance {wv:.6g} "
                                        f"(band {6.5 * sd:.3g}, N={N}, N/ESS={cfac:.1f})")
                     break
@@ -1730,10 +1743,10 @@ def witness_stream(ctx: Ctx):
         tol = CTOL * common.EPS[dname] * 16.0
         ctx.note_case(("witness", dname), True)
         ctx.count("witness.ukf-negative-centre")
-        if abs(xv - (-4.0)) > tol or abs(Pv - (-2.0)) > tol:
+        if not (abs(xv - (-4.0)) <= tol and abs(Pv - (-2.0)) <= tol):
             ctx.fail(case, f"ukf-documented: necessity witness (k=-1/2): implementation returns x={xv!r}, P={Pv!r}; the documented "
                            f"recursion gives x=-4, P=-2")
-        if abs(mv[0] - xv) > tol or abs(mv[1] - Pv) > tol:
+        if not (abs(mv[0] - xv) <= tol and abs(mv[1] - Pv) <= tol):
             ctx.disagree("witness", case, f"model gives x={mv[0]!r}, P={mv[1]!r}, implementation x={xv!r}, P={Pv!r}")
 
 
